@@ -229,6 +229,10 @@ def id_use(chk, program):
     want = [('pgn', 18), ('src', 8), ('dst', 8), ('prio', 3)]
     for meth in ('encode_ebyte', 'encode_usb', 'encode_yacht_devices'):
         fn = program.fn('encoder', f"NMEA2000Encoder.{meth}")
+        direct = [n for n in ast.walk(fn) if isinstance(n, ast.Call) and isinstance(n.func, ast.Attribute) and n.func.attr == '_build_header']
+        chk.check(len(direct) == 1, 'ID-USE', f"{meth}::built-afresh", file=ENC, line=fn.lineno, func=meth,
+                  expected='the writer itself calls _build_header once per message', found=f"{len(direct)} direct calls",
+                  detail='' if len(direct) == 1 else 'an identifier obtained through another function may be cached across messages (e.g. keyed without the destination)')
         try:
             res, rec = Wr.encode_with(program, meth, [Wr.frame_bytes(8)])
         except (Ab.Unknown, Ab.RaiseSignal) as u:
@@ -238,11 +242,6 @@ def id_use(chk, program):
         ok = args is not None and len(args) == 4 and all(isinstance(a, Ab.AInt) and a.vec() is not None and B.trim(a.vec()) == [(n, k) for k in range(w)] for a, (n, w) in zip(args, want))
         chk.check(ok, 'ID-USE', f"{meth}::identifier-of-this-message", file=ENC, line=fn.lineno, func=meth,
                   expected='_build_header(message.PGN, message.source, message.destination, message.priority)', found=[repr(a) for a in args] if args else 'no call of _build_header')
-        # called directly by the writer (not through a cache / helper holding state between messages)
-        direct = [n for n in ast.walk(fn) if isinstance(n, ast.Call) and isinstance(n.func, ast.Attribute) and n.func.attr == '_build_header']
-        chk.check(len(direct) == 1, 'ID-USE', f"{meth}::built-afresh", file=ENC, line=fn.lineno, func=meth,
-                  expected='the writer itself calls _build_header once per message', found=f"{len(direct)} direct calls",
-                  detail='' if len(direct) == 1 else 'an identifier obtained through another function may be cached across messages (e.g. keyed without the destination)')
 
 def _byteorder_of(call):
     for k in call.keywords:
